@@ -87,7 +87,9 @@ def c01_queries(tier):
         for n in lens:
             q = email_exact('C01', m, n)
             if n == 66:
-                q.covers = ['end', 'lpart-too-long', 'accepted-lpart-64']
+                q.covers = ['end', 'accepted-lpart-64']
+            if n == 67:
+                q.covers = ['end', 'lpart-too-long']
             qs.append(q)
     return qs
 
